@@ -45,7 +45,7 @@ theorem upcean_decodeRow_total {V : Type} (O : VarOps V) (T : Tables) (X : ExtTa
   have hs := decodeRow_sat O T X (wfRow_iff wf) k rn row h
   refine ⟨total_of_sat hs, fun res hr => ?_⟩
   unfold SubOK at hs; rw [hr] at hs
-  exact ⟨hs.2, hs.1⟩
+  exact ⟨hs.2.1, hs.1⟩
 
 /-- **C06, multi-format UPC/EAN reader**, for every list of sub-readers the constructor can build (any
     POSSIBLE_FORMATS, duplicates and foreign formats included): a result or NotFound / Checksum / Format. -/
